@@ -165,6 +165,16 @@ def runVia (fq : Bool) (g : Cfg) (file : Bytes) : List GItem × Nat :=
     let r := faDrain Txt.unicode g.cap sched (file.length + 1) { rd := RbV.BufLines.init file, line := [] }
     (r.1.map ofSFa, r.2.rd.k)
 
+/-- `get_kind` on the raw source, then the matching reader on `BufReader(cap, Chain)`: `chainSched` -/
+def runViaChain (fq : Bool) (g : Cfg) (file : Bytes) : List GItem × Nat :=
+  let sched := RbV.BufLines.chainSched (RbV.BufLines.cyclic g.sched)
+  if fq then
+    let r := fqDrain Txt.unicode g.cap sched (file.length + 1) (RbV.BufLines.init file)
+    (r.1.map ofSFq, r.2.k)
+  else
+    let r := faDrain Txt.unicode g.cap sched (file.length + 1) { rd := RbV.BufLines.init file, line := [] }
+    (r.1.map ofSFa, r.2.rd.k)
+
 /-- std's `read_until` loop against `readLines`: `<reads>:<lens>` -/
 def linesObs (g : Cfg) (file : Bytes) : String :=
   let sched := RbV.BufLines.cyclic g.sched
@@ -288,16 +298,21 @@ def verdict (toks : List String) (out : String) : String :=
                 | some vt => "ok" ++ tags ++ " writer" ++ vt
           else
             -- fx: groups of `K:a,b,c R:.. R:..`
-            let rec goFx (i : Nat) : List String → String
-              | [] => "ok" ++ tags ++ " sniffer"
-              | k :: r1 :: r2 :: more =>
+            let rec goFx (i : Nat) (dreads : Bool) : List Cfg → List String → String
+              | _, [] => "ok" ++ tags ++ " sniffer" ++ (if dreads then " drift-reads" else "") ++ " via"
+              | g :: gs, k :: r1 :: r2 :: n :: more =>
                 let want := if fq then "fq" else "fa"
                 if k ≠ "K:" ++ want ++ "," ++ want ++ "," ++ want then "reject sniffer-kind cfg" ++ toString i ++ " " ++ k
                 else match checkRs exp [r1, r2] with
                   | some r => "reject sniffer-" ++ r ++ " group" ++ toString i
-                  | none => goFx (i + 1) more
-              | _ => "reject observation-shape"
-            goFx 0 rest
+                  | none =>
+                    let via := runViaChain fq g fbytes
+                    if via.1 ≠ exp then "bad-op via-model-not-schedule-independent"
+                    else goFx (i + 1) (dreads || n ≠ "N:" ++ toString via.2) gs more
+              | _, _ => "reject observation-shape"
+            match parseCfgs cfgss with
+            | none => "bad-op cfgs"
+            | some cfgs => goFx 0 false cfgs rest
       | [] => "bad-op observation"
     | _, _ => "bad-op parse"
   | ["lay", fmt, ls, cfgss] =>
@@ -399,19 +414,27 @@ def verdict (toks : List String) (out : String) : String :=
           | some .fasta => modelU false file
           | some .fastq => modelU true file
           | none => []
-        let rec goFxRaw (drift : Bool) : List String → String
-          | [] => "ok" ++ base ++ " fx" ++ (if drift then dtag else "") ++ " k-" ++ k
-          | kt :: r1 :: r2 :: more =>
+        let rec goFxRaw (drift : Bool) (dreads : Bool) : List Cfg → List String → String
+          | _, [] => "ok" ++ base ++ " fx" ++ (if drift then dtag else "") ++ (if dreads then " drift-reads" else "")
+              ++ " k-" ++ k
+          | g :: gs, kt :: r1 :: r2 :: n :: more =>
             match (stripPrefix "R:" r1).bind parseItems, (stripPrefix "R:" r2).bind parseItems with
             | some i1, some i2 =>
               if hasLoop i1 || hasLoop i2 then "reject endless-iteration" else
               let kexp := if k = "e" then kt.startsWith "K:e" else kt = "K:" ++ k ++ "," ++ k ++ "," ++ k
               -- after a failed sniff `EitherRecords` reports the error as an item (illegal start) or ends (empty)
               let d := !kexp || (if k = "e" then false else i1 ≠ m || i2 ≠ m)
-              goFxRaw (drift || d) more
+              let dr := match sniff file with
+                | some kd =>
+                  let via := runViaChain (kd == .fastq) g file
+                  via.1 ≠ m || n ≠ "N:" ++ toString via.2
+                | none => false
+              goFxRaw (drift || d) (dreads || dr) gs more
             | _, _ => "bad-op observation"
-          | _ => "bad-op observation-shape"
-        goFxRaw false (obsToks out)
+          | _, _ => "bad-op observation-shape"
+        match parseCfgs cfgss with
+        | none => "bad-op cfgs"
+        | some cfgs => goFxRaw false false cfgs (obsToks out)
       else if fmt = "fa" ∨ fmt = "fq" then
         let m := modelU (fmt = "fq") file
         let toksO := obsToks out
